@@ -160,3 +160,52 @@ func c17Concurrent(run *rt.Run) {
 }
 
 func advance(e *env, secs int64) { atomic.AddInt64(&e.clock, secs) }
+
+// c11FirstEvents: the very first events of a fresh filter arrive from several senders at once (the filter
+// initialises itself lazily inside Process); FlushAll afterwards must emit every accepted event exactly once.
+func c11FirstEvents(run *rt.Run) {
+	r := run.Rand()
+	ctx := context.Background()
+	n := run.N(4000, 150000)
+	for i := 0; i < n && !run.Stop(); i++ {
+		cr := r.Fork()
+		e := &env{}
+		f := &gated.Filter{Expiration: expiration * time.Second, NowFunc: e.now, Broker: &recSender{e}}
+		ng := cr.Range(2, 8)
+		var arrived int32
+		var wg sync.WaitGroup
+		errs := make([]error, ng)
+		for g := 0; g < ng; g++ {
+			wg.Add(1)
+			id := rt.Pick(cr, []string{"a", "b", "c"})
+			go func(g int, id string) {
+				defer wg.Done()
+				atomic.AddInt32(&arrived, 1)
+				for atomic.LoadInt32(&arrived) < int32(ng) {
+					runtime.Gosched()
+				}
+				_, errs[g] = f.Process(ctx, &eventlogger.Event{Type: "gated", Payload: &gp{ID: id, Tok: fmt.Sprintf("f%d-%d", i, g), env: e}})
+			}(g, id)
+		}
+		wg.Wait()
+		ferr := f.FlushAll(ctx)
+		e.mu.Lock()
+		seen := map[string]int{}
+		for _, s := range e.sends {
+			for _, t := range s.Toks {
+				seen[t]++
+			}
+		}
+		e.mu.Unlock()
+		for g := 0; g < ng; g++ {
+			tok := fmt.Sprintf("f%d-%d", i, g)
+			if errs[g] == nil && ferr == nil && seen[tok] != 1 {
+				run.Violation("history-pattern:first-events-"+map[bool]string{true: "lost", false: "duplicate"}[seen[tok] == 0],
+					fmt.Sprintf("event %s was accepted as one of the first %d concurrent events of a fresh filter, FlushAll succeeded, but it was handed to the Broker %d times", tok, ng, seen[tok]),
+					map[string]any{"senders": ng, "sender_received": seen})
+				break
+			}
+		}
+		run.Eval(fmt.Sprintf("first|%d", ng))
+	}
+}
